@@ -418,6 +418,13 @@ def assocexec(run, fx, maxc=4, maxs=3):
     fn = fx.one('graphite2::Segment::associateChars')
     PS, PC, PG = 'graphite2::Slot::', 'graphite2::CharInfo::', 'graphite2::Segment::'
     srec, crec, grec = fx.record('graphite2::Slot'), fx.record('graphite2::CharInfo'), fx.record('graphite2::Segment')
+    from .util import setter_field
+    CB = setter_field(fx, 'graphite2::CharInfo::before', PC + 'm_before')      # members by role (through their setters): a rename does not misplace the inputs
+    CA = setter_field(fx, 'graphite2::CharInfo::after', PC + 'm_after')
+    SB = setter_field(fx, 'graphite2::Slot::before', PS + 'm_before')
+    SA = setter_field(fx, 'graphite2::Slot::after', PS + 'm_after')
+    SI = setter_field(fx, 'graphite2::Slot::index', PS + 'm_index')
+    SN = setter_field(fx, 'graphite2::Slot::next', PS + 'm_next')
 
     def mk(rec, pfx):
         r = O.Rec()
@@ -432,13 +439,13 @@ def assocexec(run, fx, maxc=4, maxs=3):
                 cases += 1
                 chars = O.Vec([mk(crec, PC) for _ in range(nc)])
                 for c in chars.items:
-                    c[PC + 'm_before'] = 77          # stale values from a previous association must not survive
-                    c[PC + 'm_after'] = 77
+                    c[CB] = 77          # stale values from a previous association must not survive
+                    c[CA] = 77
                 slots = [mk(srec, PS) for _ in range(ns)]
                 for k, sl in enumerate(slots):
-                    sl[PS + 'm_before'], sl[PS + 'm_after'] = assign[k]
-                    sl[PS + 'm_index'] = 55
-                    sl[PS + 'm_next'] = O.Ptr(slots[k + 1]) if k + 1 < ns else O.Ptr(None)
+                    sl[SB], sl[SA] = assign[k]
+                    sl[SI] = 55
+                    sl[SN] = O.Ptr(slots[k + 1]) if k + 1 < ns else O.Ptr(None)
                 seg = mk(grec, PG)
                 seg[PG + 'm_charinfo'] = O.It(chars, 0)
                 seg[PG + 'm_numCharinfo'] = nc
@@ -456,16 +463,16 @@ def assocexec(run, fx, maxc=4, maxs=3):
                     continue
                 desc = '%d characters, %d slots with [before,after] = %s' % (nc, ns, list(assign))
                 for k, sl in enumerate(slots):
-                    if sl[PS + 'm_index'] != k:
-                        return cases, '%s: slot %d gets index %r' % (desc, k, sl[PS + 'm_index'])
-                    b, a = sl[PS + 'm_before'], sl[PS + 'm_after']
+                    if sl[SI] != k:
+                        return cases, '%s: slot %d gets index %r' % (desc, k, sl[SI])
+                    b, a = sl[SB], sl[SA]
                     if not (isinstance(b, int) and isinstance(a, int) and 0 <= b <= a < nc):
                         return cases, '%s: afterwards slot %d has before=%r after=%r, not a range inside the text' % (desc, k, b, a)
                 for j, c in enumerate(chars.items):
-                    b, a = c[PC + 'm_before'], c[PC + 'm_after']
+                    b, a = c[CB], c[CA]
                     if not (isinstance(b, int) and isinstance(a, int) and 0 <= b < ns and 0 <= a < ns):
                         return cases, '%s: char-info %d ends with before=%r after=%r, not slot indices in [0,%d)' % (desc, j, b, a, ns)
-                    if not any(sl[PS + 'm_before'] <= j <= sl[PS + 'm_after'] for sl in slots):
+                    if not any(sl[SB] <= j <= sl[SA] for sl in slots):
                         return cases, '%s: character %d lies in no slot\'s [before,after] range afterwards' % (desc, j)
     return cases, None
 
